@@ -36,3 +36,35 @@ PROPS["C04"] = dict(
     out_of_reach=["the acknowledgement of a detected duplicate happens in async handle_rx_packet; only the cause (Err(Duplicate) exactly for refused counters) is under contract"],
     assumptions=[],
 )
+
+PROPS["C12"] = dict(
+    title="Durable counters never hand out the same value twice, across restarts too",
+    scope="Layer A: each counter operation (check-in counter, global group data counter, event number) refines a transition of an abstract "
+          "epoch machine over unbounded logical positions (Verus, on the extracted real bodies). Layer B: for every schedule of reservations, "
+          "stores and restarts (restart after any event) the positions handed out strictly increase and each is below the durable boundary when used.",
+    verus=["checkin", "groupctr", "events"],
+    kani=[],
+    functions=[],
+    trusted=["assumed contract: Persist::store_tlv (Ok => durable value is the argument, Err => unchanged)",
+             "assumed contract: Sessions::get_or_init_global_group_data_ctr (random seed via Crypto)",
+             "struct projections of Sessions / EventsInner to the fields the extracted functions touch (T7)"],
+    out_of_reach=["that the application really performs the store the interface asks for (caller precondition of the layer-B machine)",
+                  "KV-store failures between reserve and use (D9, outside the statement's quantifier)",
+                  "counter horizons: 2^28-1 group counter positions, 2^32 check-in values, 2^64 event numbers (stated in the lemmas)"],
+    assumptions=[],
+)
+
+PROPS["C16"] = dict(
+    title="The TLV codec round-trips every value and rejects every malformed input safely",
+    scope="Reader navigation core (TLVSequence::{control, tag*, value*, len, container_len, container_value_len, next_start, next_enter, "
+          "container_next, current} + control/tag/type helpers) verified by Verus on the extracted real bodies for byte slices of ANY length: "
+          "no panic, no overflow, no out-of-range access, returned slices are sub-ranges of the input, loops terminate (decreases).",
+    verus=["tlvread"],
+    kani=[],
+    functions=[],
+    trusted=["assumed contract: TLVSequence::value_len (length-field decoding via try_into/from_le_bytes)", "assumed: TLVControl::parse is total",
+             "derived Clone of TLVSequence returns an equal value; Self::EMPTY is the empty slice"],
+    out_of_reach=["derive-generated FromTLV/ToTLV of wire structures (macro output)", "whole value trees; floats beyond bit patterns",
+                  "inputs of 2 GiB or more (i32 nesting counter horizon, stated as precondition)"],
+    assumptions=[],
+)
